@@ -2,6 +2,7 @@ package main
 
 import (
 	"fmt"
+	"sort"
 	"strings"
 
 	"golang.org/x/tools/go/ssa"
@@ -14,9 +15,9 @@ func propC18(c *Ctx, r *Report) {
 	r.NotDec = "linearisability of multi-statement read handlers against commits; SQLite locking behaviour (SQLITE_BUSY)"
 	r.Trusted = []string{"database/sql: reads through the pool never see another connection's uncommitted transaction", "x/tools go/ssa", "module call graph (static + module-interface CHA + closures + json callbacks)"}
 	cat := buildSQLCat(c)
-	r.rule("C18-R1/api-read-only", 10, "API roots reach no SQL write, BeginTx or *sql.Tx method")
+	r.rule("C18-R1/api-read-only", 7, "API roots reach no SQL write, BeginTx or *sql.Tx method")
 	ruleNoWritesFrom(c, cat, r, "C18-R1/api-read-only", c.API, "API root")
-	r.rule("C18-R1/tx-confinement", 4, "the block transaction is confined to the sync goroutine")
+	r.rule("C18-R1/tx-confinement", 3, "the block transaction is confined to the sync goroutine")
 	ruleTxConfinement(c, r, "C18-R1/tx-confinement")
 	sa := newSharedAnalysis(c)
 	r.rule("C18-R2/shared-state", 2, "no unsynchronised location shared between the sync goroutine and API handlers")
@@ -24,6 +25,60 @@ func propC18(c *Ctx, r *Report) {
 	// R3 publish-after-commit
 	r.rule("C18-R3/publish-after-commit", 1, "the sync height read by API handlers is advanced only after Commit succeeded")
 	rulePublishAfterCommit(c, sa, r, "C18-R3/publish-after-commit")
+	r.rule("C18-R4/handler-goroutines", 1, "a goroutine started while serving a request cannot panic unrecovered")
+	{
+		panics := map[*ssa.Function]bool{}
+		for _, f := range c.Funcs {
+			allInstrs(f, func(ins ssa.Instruction) {
+				if _, ok := ins.(*ssa.Panic); ok {
+					panics[f] = true
+				}
+			})
+		}
+		n := 0
+		for _, f := range sortedFuncs(c.RAPI) {
+			allInstrs(f, func(ins ssa.Instruction) {
+				g, ok := ins.(*ssa.Go)
+				if !ok {
+					return
+				}
+				n++
+				var tgt *ssa.Function
+				if mc, ok := g.Call.Value.(*ssa.MakeClosure); ok {
+					tgt, _ = mc.Fn.(*ssa.Function)
+				} else {
+					tgt = g.Call.StaticCallee()
+				}
+				if tgt == nil {
+					r.undecided("C18-R4/handler-goroutines", fname(f)+" go statement", c.ipos(ins), "target not resolved")
+					return
+				}
+				recovers := false
+				for _, ci := range callsOf(tgt) {
+					if _, isDefer := ci.(*ssa.Defer); isDefer {
+						if sc := ci.Common().StaticCallee(); sc != nil {
+							for _, cj := range callsOf(sc) {
+								if calleeName(cj.Common()) == "builtin.recover" {
+									recovers = true
+								}
+							}
+						}
+					}
+				}
+				var p []string
+				for x := range c.reach(tgt) {
+					if panics[x] {
+						p = append(p, fname(x))
+					}
+				}
+				sort.Strings(p)
+				r.check(len(p) == 0 || recovers, "C18-R4/handler-goroutines", fname(f)+" go "+fname(tgt), c.ipos(ins), "", "a goroutine started while serving an API request can reach an explicit panic ("+strings.Join(p, ", ")+") without a recover of its own: unlike a panic on the handler goroutine (recovered by the json-rpc layer) it ends the whole process")
+			})
+		}
+		if n == 0 {
+			r.okNT("C18-R4/handler-goroutines", "no go statement reachable from an API handler", "-", fmt.Sprintf("%d functions scanned", len(c.RAPI)))
+		}
+	}
 	// thorough: cross-check the reachable sets against x/tools VTA; a function only VTA reaches (through
 	// library callbacks) must not be able to write the database
 	if c.Tier == "thorough" {
@@ -62,7 +117,7 @@ func propC18(c *Ctx, r *Report) {
 func rulePublishAfterCommit(c *Ctx, sa *sharedAnalysis, r *Report, rule string) {
 	sum := sa.summarize()
 	f := c.Sync
-	commits := findCalls(f, "database/sql.(*Tx).Commit")
+	commits := findCalls(f, "database/sql.Tx.Commit")
 	n := 0
 	for _, s := range sum {
 		if len(s.APIR) == 0 {
@@ -100,6 +155,19 @@ func rulePublishAfterCommit(c *Ctx, sa *sharedAnalysis, r *Report, rule string) 
 	if n == 0 {
 		r.ok(rule, "no store in the sync root to an API-read location", "-", "")
 	}
+	heightWriters(c, sa, r, rule)
+}
+
+// heightWriters: the in-memory sync height is written by the sync root only (a helper that bumps it is a
+// publication the typestate rule cannot see).
+func heightWriters(c *Ctx, sa *sharedAnalysis, r *Report, rule string) {
+	bad := ""
+	for _, a := range sa.Acc {
+		if a.Write && a.Loc == "pegnet.BlockSync.Synced" && a.Root == "sync" && a.Fn != c.Sync {
+			bad += fmt.Sprintf("%s writes the shared sync height at %s; ", fname(a.Fn), c.ipos(a.Ins))
+		}
+	}
+	r.check(bad == "", rule, "only the sync root writes the in-memory sync height", c.pos(c.Sync.Pos()), "", bad+"the height can move before the block is committed (and is not restored when it fails)")
 }
 
 func isDecrement(st *ssa.Store) bool {
@@ -120,6 +188,15 @@ func propC09(c *Ctx, r *Report) {
 	// window size: the incremental path must leave the same number of entries as a reload
 	r.rule("C09/window-size", 1, "the incrementally maintained averaging window has the size of a reloaded one")
 	windowSize(c, r, "C09/window-size")
+	r.rule("C09/cache-fill-errors", 1, "a failed rate read while filling the averaging window is not skipped")
+	{
+		g := c.fn("node.Pegnetd.GetPegNetRateAverages")
+		scope := map[*ssa.Function]bool{}
+		for _, f := range c.family(g) {
+			scope[f] = true
+		}
+		runErrflow(c, computeEffects(c), r, scope, "C09/cache-fill-errors", false)
+	}
 	r.rule("C09/config-stable", 1, "no activation/config global is written while the daemon runs")
 	n := 0
 	for _, a := range sa.Acc {
@@ -149,26 +226,38 @@ func windowSize(c *Ctx, r *Report, rule string) {
 	g := c.fn("node.Pegnetd.GetPegNetRateAverages")
 	var bad []string
 	trimOK := false
-	for f := range c.reach(g) {
-		if f.Parent() != g {
+	isLen := func(v ssa.Value) bool {
+		lc, ok := v.(*ssa.Call)
+		if !ok {
+			return false
+		}
+		bi, ok := lc.Call.Value.(*ssa.Builtin)
+		return ok && bi.Name() == "len"
+	}
+	isPeriod := func(v ssa.Value) bool {
+		return sliceHas(v, func(x ssa.Value) bool { return valuePath(x) == "node.AveragePeriod" })
+	}
+	for _, f := range c.family(g) { // the closures of GetPegNetRateAverages and helpers split off from it
+		if f == g {
 			continue
 		}
 		for _, l := range naturalLoops(f) {
-			cond, body, _ := condEdge(l.header)
-			bo, ok := cond.(*ssa.BinOp)
-			if !ok {
+			x, y, lt, ge := ordEdges(l.header)
+			if x == nil {
 				continue
 			}
-			lc, ok := bo.X.(*ssa.Call)
-			if !ok {
+			// normal form: loop while len(series) >= AveragePeriod; the strict form reads AveragePeriod < len(series)
+			var body *ssa.BasicBlock
+			opStr := ""
+			switch {
+			case isLen(x) && isPeriod(y) && l.blocks[ge] && !l.blocks[lt]:
+				body, opStr = ge, ">="
+			case isPeriod(x) && isLen(y) && l.blocks[lt] && !l.blocks[ge]:
+				body, opStr = lt, ">"
+			default:
 				continue
 			}
-			if bi, ok := lc.Call.Value.(*ssa.Builtin); !ok || bi.Name() != "len" {
-				continue
-			}
-			if !sliceHas(bo.Y, func(v ssa.Value) bool { return valuePath(v) == "node.AveragePeriod" }) {
-				continue
-			}
+			bo := l.header.Instrs[len(l.header.Instrs)-1].(*ssa.If).Cond
 			// the loop body shrinks the series (a Slice with High = len-1)
 			shr := false
 			for b := range l.blocks {
@@ -183,15 +272,67 @@ func windowSize(c *Ctx, r *Report, rule string) {
 			if !shr {
 				continue
 			}
-			if bo.Op.String() == ">=" {
+			if opStr == ">=" {
 				trimOK = true
 			} else {
-				bad = append(bad, fmt.Sprintf("the trim loop at %s runs while len %s AveragePeriod: after the following append the incremental window holds AveragePeriod+1 entries while a reload collects AveragePeriod", c.ipos(bo), bo.Op))
+				bad = append(bad, fmt.Sprintf("the trim loop at %s runs while len %s AveragePeriod: after the following append the incremental window holds AveragePeriod+1 entries while a reload collects AveragePeriod", c.pos(bo.Pos()), opStr))
 			}
 		}
 	}
 	if !trimOK && len(bad) == 0 {
 		bad = append(bad, "no trim loop `for len(series) >= AveragePeriod` found in the incremental path")
+	}
+	// every collection of a height either follows the truncation of the window (reload) or is the single step
+	// taken when the requested height is exactly the cached height + 1
+	var truncBlocks []*ssa.BasicBlock
+	allInstrs(g, func(ins ssa.Instruction) {
+		if mu, ok := ins.(*ssa.MapUpdate); ok {
+			if sl, ok := mu.Value.(*ssa.Slice); ok && sl.Low == nil {
+				if k, ok := sl.High.(*ssa.Const); ok && k.Int64() == 0 {
+					if l := innermostLoop(g, mu.Block()); l != nil {
+						truncBlocks = append(truncBlocks, l.header)
+					}
+				}
+			}
+		}
+	})
+	nCollect := 0
+	for _, ci := range callsOf(g) {
+		call, ok := ci.(*ssa.Call)
+		if !ok {
+			continue
+		}
+		sc := call.Call.StaticCallee()
+		if sc == nil || !fnInModule(sc) || !reachesCallee(c, sc, "SelectRates") {
+			continue
+		}
+		nCollect++
+		okk := false
+		for _, tb := range truncBlocks {
+			if tb != call.Block() && tb.Dominates(call.Block()) {
+				okk = true // reload: the window was emptied first
+			}
+		}
+		for _, b := range g.Blocks {
+			cond, tb, _ := condEdge(b)
+			bo, ok := cond.(*ssa.BinOp)
+			if !ok || bo.Op.String() != "==" || !blockOrDom(tb, call.Block()) || len(tb.Preds) != 1 {
+				continue
+			}
+			if add, ok := bo.X.(*ssa.BinOp); ok && add.Op.String() == "+" && typePath(add.X) == "node.Pegnetd.LastAveragesHeight" {
+				if k, ok := add.Y.(*ssa.Const); ok && k.Int64() == 1 {
+					if paramOrSpill(bo.Y, g) && innermostLoop(g, call.Block()) == nil {
+						okk = true
+					}
+				}
+			}
+		}
+		if !okk {
+			bad = append(bad, "the rates of a height are added to the cached window at "+c.ipos(call)+" neither after emptying it nor under `LastAveragesHeight+1 == height`: after a gap the window keeps heights a reloaded window would not have")
+		}
+	}
+	if nCollect == 0 {
+		bad = append(bad, "no call that collects the rates of a height found in GetPegNetRateAverages")
 	}
 	// reload path: start height = height - AveragePeriod + 1
 	startOK := false
